@@ -1,7 +1,7 @@
 """Per-property configuration of the runner: which harness streams feed the
 violation search / correspondence, with which budgets."""
 
-HOOK_COMMITS = ["f4219a2", "c408641", "a451f59", "6111423", "e993c2a"]
+HOOK_COMMITS = ["f4219a2", "c408641", "a451f59", "6111423", "e993c2a", "6be90ee"]
 
 PROPS = {
     "C05": {
